@@ -156,7 +156,7 @@ def template_callees(chk):
     return {row: resolved.get(nm, nm) for row, nm in out.items()}
 
 
-def check_function(chk, htu, row, cfg, callees):
+def check_function(chk, htu, row, cfg, callees, rule='R19.1'):
     sem = row['sem']
     cls = sem['cls']
     access = sem['access']
@@ -164,7 +164,7 @@ def check_function(chk, htu, row, cfg, callees):
     site = 'runtime/%s@%s' % (fn, cfg)
     summ = mr.summarize_access(htu, fn)
     if summ is None:
-        chk.fail('R19.1', fn + '@' + cfg, 'function %s is not defined in the big-endian configuration' % fn, site)
+        chk.fail(rule, fn + '@' + cfg, 'function %s is not defined in the big-endian configuration' % fn, site)
         return
     chk.fn(fn)
     probs = []
@@ -250,9 +250,9 @@ def check_function(chk, htu, row, cfg, callees):
         if cls in ('load', 'store') and access > 8 and len(swaps) + len(open_coded) != 1:
             probs.append('%d byte reversals on the path, expected one' % len(swaps))
     for pr in probs:
-        chk.fail('R19.1', '%s@%s' % (row['name'], cfg), '%s: %s' % (fn, pr), site)
+        chk.fail(rule, '%s@%s' % (row['name'], cfg), '%s: %s' % (fn, pr), site)
     if not probs:
-        chk.ok('R19.1', '%s@%s' % (row['name'], cfg),
+        chk.ok(rule, '%s@%s' % (row['name'], cfg),
                '%d reversal(s) of %d bits' % (want_n, access) if want_n else 'no reversal (byte access)')
 
 
